@@ -213,7 +213,7 @@ def objEval (root : J) (ref : Option (List Nat)) (n : Nat) (o' o : JObj) (x : Py
 
 theorem evalSchema_obj (root : J) (ref : Option (List Nat)) (n : Nat) (o : JObj) (x : PyVal) :
     evalSchema root ref (n + 1) (.obj o) x =
-      if isNullable o && (match x with | .none => true | _ => false) then some true
+      if isNullable o && isNoneV x then some true
       else if typeFails o x then some false
       else objEval root ref n o o x := rfl
 
